@@ -71,10 +71,13 @@ with open(os.path.join(VERIF, "seeded", "README.md"), "w") as f:
         f.write("| %s | %s | %s |\n" % row)
     f.write("""
 Notes
-* `R2Cxx` ... `R6Cxx` are later waves of independent sub-agent changes, all written against the repaired code: each agent was told
+* `R2Cxx` ... `R9Cxx` are later waves of independent sub-agent changes, all written against the repaired code: each agent was told
   what earlier waves had tried for its property and asked for a change of a different character (R3: compiled-build-only and
   two-cooperating-site changes; R4: two-site changes and legal-but-unusual API use; R5/R6: legal-but-unusual API use and
-  faults at one specific point of a history).
+  faults at one specific point of a history; R7-R9: changes that are hard to hit by chance - thresholds, coincidences of
+  conditions, event orders, odd user objects, rarely used entry points, compiled-only).
+* `sweep_default_seed.txt` is the raw output of the last sweep (one row per seeded change and check, with the earliest violating
+  case and how many of the 16 workers found one); `sweep_seed_1_waves_1_to_8.txt` is the same for VERIF_SEED=1 (waves 1-8).
 * `C08-m1` / `C08-m2` of the first C08 sub-agent are not kept: after the fixes b5054cf (failing lazy Future no longer escapes) and
   046c437 (scheduled batches are cleared when the outermost wait ends) their demonstrations pass on the mutated tree, i.e. they no longer
   break the property; `C08b-*` and `R2C08-*` were written against the repaired code.
